@@ -82,6 +82,11 @@ def run(res, tier, seed):
     n = 40 if tier == "quick" else 400
     reps = 6 if tier == "quick" else 12
     srcs = programs(rng, n)
+    # two-return functions whose paths disagree about a saved register / sp, in both file layouts:
+    # the diagnostics must not depend on which return the (hash-ordered) markup makes the exit
+    from props.graphfacts import early_out_programs
+    for _ in range(2 if tier == "quick" else 40):
+        srcs += early_out_programs(rng)
     # the model tells which programs have a diagnostic whose location depends on hash order
     # (several first uses at the same depth: known finding F-14); those are compared as sets
     from common import DRIVER
